@@ -12,6 +12,9 @@ CBPF_TRUST = [
 ]
 
 
+from hooks_c19 import hook as c19_hook   # C19: names the (target, constant, value, expected) behind a broken theorem
+
+
 def policy_stream(profile, quick, thorough, corpus=None, seeds=3, extra=None):
     d = {"stream": "policy", "profile": profile, "quick": quick, "thorough": thorough, "thorough_seeds": seeds}
     if corpus:
@@ -64,5 +67,18 @@ PROPS = {
         "streams": [policy_stream("defects", 3000, 60000, corpus="policy")],
         "trusted": ["Go panics are observed by recover() in the harness and reported as the reply PANIC (never produced by the model)"],
         "assumptions": ["the architecture-without-tables case is reached through arch.GetInfo (C12/C19), not through Policy.Assemble on this host"],
+    },
+    "C19": {
+        "lean": ["Seccomp.Proofs.C19"],
+        # one pass over the facts; thorough additionally runs go build + go vet for every target (scratch GOCACHE)
+        "streams": [{"stream": "consts", "profile": "targets", "quick": 1, "thorough": 1, "timeout": 3000}],
+        "hook": c19_hook,
+        "exhaustive": True,
+        "trusted": ["go/packages + go/types constant evaluation under each GOOS/GOARCH (the translator's per-target rows); the linux/amd64 row is compared with the compiled package on every run, every row with `go build`/`go vet` in the thorough tier",
+                    "the installed kernel UAPI headers and gcc (oracle Gen.uapi); one hand-written oracle row: ENOSYS = 89 on linux/mips* (no MIPS headers installed), documented in Proofs/C19.lean",
+                    "`no call expression in the body` is taken as `performs no system call` for the three stubs (the stub file declares nothing else and imports nothing)"],
+        "assumptions": ["the target list is `go tool dist list` of the installed toolchain (go1.23.5: 49 pairs) in the thorough tier and a 14-target cross-section (9 linux ports incl. 2 MIPS, darwin, windows, freebsd, js/wasm, plan9) in the quick tier",
+                        "targets are loaded with CGO_ENABLED=0; the two commands cannot be linked without cgo on android/386, android/amd64, android/arm, ios/* (toolchain restriction) — there the statements range over the library packages, which type-check on all targets",
+                        "Policy.Assemble takes its architecture from arch.GetInfo(\"\") only (filter.go), so `GetInfo(\"\")` errors ⇒ no filter; the model side is C07.defective_rejected (noTables)"],
     },
 }
